@@ -279,7 +279,12 @@ func (v ReceiverValidator) validateReturnTypes(receiver *metadata.ReceiverMeta) 
 
 	// Validate whether the method returns a proper error. This may be the first or second return type in the list
 	retType := receiver.RetVals[errorRetTypeIndex]
-	relevantPkg, err := v.packagesFacade.GetPackage(retType.PkgPath)
+	// The type may be declared in another package than the controller's - look it up where it is declared
+	errorTypePkgPath := retType.Type.PkgPath
+	if errorTypePkgPath == "" {
+		errorTypePkgPath = retType.PkgPath
+	}
+	relevantPkg, err := v.packagesFacade.GetPackage(errorTypePkgPath)
 	if err != nil {
 		return nil, fmt.Errorf(
 			"failed to obtain package object for return value '%s' in receiver '%s' - %w",
